@@ -20,7 +20,8 @@ pub const PUSH_POP_GAMUT: [OpParameter; 5] = [
 
 pub fn push(parameters: &RawParameters, _ctx: &dyn Context) -> Result<Op, Error> {
     let def = &parameters.definition;
-    let params = ParsedParameters::new(parameters, &PUSH_POP_GAMUT)?;
+    let mut params = ParsedParameters::new(parameters, &PUSH_POP_GAMUT)?;
+    params.boolean.insert(super::pipeline::STACK_MACHINE_MARKER);
 
     let descriptor = OpDescriptor::new(def, InnerOp::default(), Some(InnerOp::default()));
     let steps = Vec::new();
@@ -36,7 +37,8 @@ pub fn push(parameters: &RawParameters, _ctx: &dyn Context) -> Result<Op, Error>
 
 pub fn pop(parameters: &RawParameters, _ctx: &dyn Context) -> Result<Op, Error> {
     let def = &parameters.definition;
-    let params = ParsedParameters::new(parameters, &PUSH_POP_GAMUT)?;
+    let mut params = ParsedParameters::new(parameters, &PUSH_POP_GAMUT)?;
+    params.boolean.insert(super::pipeline::STACK_MACHINE_MARKER);
 
     let descriptor = OpDescriptor::new(def, InnerOp::default(), Some(InnerOp::default()));
     let steps = Vec::new();
